@@ -178,7 +178,31 @@ Example split_example :
   split_peak_local_minimum 100 2 12 0 1 [3; 3; 0; 0; 0; 0; 3; 3] 1 0
   = Ok (true, [mkchild 100 4 1; mkchild 104 12 1]).
 Proof. vm_compute. reflexivity. Qed.
-(* a closing split point of len(w) - 1, as NaturalBreaksSplitter yields it, leaves the last sample out *)
+(* splitting with the natural-breaks finder (whatever interior index its goodness of split
+   selects) tiles the parent exactly *)
+Theorem natural_breaks_split_tiles t dt area min_area odt w max_i :
+  0 < odt -> 0 < dt -> (odt | dt) -> min_area <= area -> 0 < max_i < zlen w ->
+  exists cs, split_peak_natural_breaks t dt area min_area odt w max_i true = Ok (true, cs) /\
+             tiled t cs (t + zlen w * dt) /\ Forall (fun c => cdt c = odt) cs /\ length cs = 2%nat.
+Proof.
+  intros Ho Hd Hdiv Ha Hm. unfold split_peak_natural_breaks, nbs_split_points.
+  apply (split_peak_tiles t dt area min_area odt (zlen w) [max_i; zlen w]); auto.
+  - discriminate.
+  - cbn. lia.
+Qed.
+Lemma natural_breaks_no_split t dt area min_area odt w max_i : min_area <= area ->
+  split_peak_natural_breaks t dt area min_area odt w max_i false = Ok (false, []).
+Proof.
+  intros Ha. unfold split_peak_natural_breaks, nbs_split_points, split_peak.
+  replace (area <? min_area) with false by lia. reflexivity.
+Qed.
+Example nbs_example :
+  split_peak_natural_breaks 100 2 12 0 1 [3; 3; 0; 0; 0; 0; 3; 3] 2 true
+  = Ok (true, [mkchild 100 4 1; mkchild 104 12 1]).
+Proof. vm_compute. reflexivity. Qed.
+
+(* Documentation of the pinned tree (before /repo commit 8263a29): NaturalBreaksSplitter closed with
+   len(w) - 1, which leaves the parent's last sample out *)
 Example split_short_of_end : exists cs,
   split_peak 100 2 12 0 1 [2; 7] = Ok (true, cs) /\ tiled 100 cs 114 /\ ~ tiled 100 cs 116.
 Proof.
